@@ -23,6 +23,8 @@ func GoType(sp string, i int) string {
 		return fmt.Sprintf("G[B%d]", i)
 	case SpExt:
 		return fmt.Sprintf("ext.V%d", i)
+	case SpTime:
+		return "time.Time"
 	}
 	return fmt.Sprintf("S%d", i)
 }
@@ -42,6 +44,8 @@ func MkExpr(sp string, i int, h string) string {
 		return fmt.Sprintf("G[B%d]{H: %s}", i, h)
 	case SpExt:
 		return fmt.Sprintf("ext.V%d{H: %s}", i, h)
+	case SpTime:
+		return fmt.Sprintf("mkT(%s)", h)
 	}
 	return fmt.Sprintf("S%d{H: %s}", i, h)
 }
@@ -59,6 +63,8 @@ func HashExpr(sp string, i int, v string) string {
 		return fmt.Sprintf("hM%d(%s)", i, v)
 	case SpGeneric, SpExt:
 		return fmt.Sprintf("%s.H", v)
+	case SpTime:
+		return fmt.Sprintf("hT(%s)", v)
 	}
 	return fmt.Sprintf("%s.H", v)
 }
@@ -66,7 +72,8 @@ func HashExpr(sp string, i int, v string) string {
 // TypesFile is the shared, untagged declarations file of a generated package.
 func TypesFile(pkg string) string {
 	var b strings.Builder
-	fmt.Fprintf(&b, "package %s\n\n", pkg)
+	fmt.Fprintf(&b, "package %s\n\nimport \"time\"\n\n", pkg)
+	b.WriteString("// mkT/hT carry a hash in a time.Time value.\nfunc mkT(h uint64) time.Time { return time.Unix(0, int64(h)) }\n\nfunc hT(t time.Time) uint64 {\n\tif t.IsZero() {\n\t\treturn 0\n\t}\n\treturn uint64(t.UnixNano())\n}\n\n")
 	b.WriteString("// G is a generic value type.\ntype G[X any] struct {\n\tH uint64\n\tx X\n}\n\n")
 	for i := 0; i < NTypes; i++ {
 		fmt.Fprintf(&b, "type S%d struct{ H uint64 }\ntype B%d uint64\n", i, i)
@@ -536,6 +543,17 @@ func Render(p *Program, pkg, modPath string) string {
 		} else {
 			b.WriteString("\t\"context\"\n")
 		}
+	}
+	usesTime := false
+	if p.Flow != nil {
+		for _, sp := range p.Flow.Types {
+			if sp == SpTime {
+				usesTime = true
+			}
+		}
+	}
+	if usesTime && p.F.TimeImp == "" {
+		b.WriteString("\t\"time\"\n")
 	}
 	switch p.F.TimeImp {
 	case "plain":
